@@ -133,6 +133,8 @@ def run_pipeline(tier, replay_behaviours=None, pid=None):
     timed_ex = ThreadPoolExecutor(max_workers=1)
     timed_cfgs = FOCUS.get(pid, {}).get("timed_cfgs", ("ChannelTime.cfg", "ChannelTime_stranger.cfg"))
     timed_fut = timed_ex.submit(run_timed, binp, d, timed_cfgs) if want_timed else None
+    want_crafted = replay_behaviours is None and pid in (None, "C05", "C02")
+    crafted_fut = timed_ex.submit(run_crafted, binp, d, tier) if want_crafted else None
     allb, bid = {}, 0
     p = os.path.join(d, "beh.ndjson")
     with open(p, "w") as f:
@@ -177,6 +179,11 @@ def run_pipeline(tier, replay_behaviours=None, pid=None):
                 # application data accepted from a key the channel never accepted is also not an authentic peer plaintext (C02)
                 violations.append(("C02", "C02:Authentic:unaccepted-key/%s" % fam.split("_")[-1], what,
                                    dict(behaviour=allb[beh], event={k: ev[k] for k in ev if k not in ("expa", "expb")}, operator=op)))
+    if crafted_fut is not None:
+        cres = crafted_fut.result()
+        stats["crafted"] = cres["stats"]
+        violations.extend(cres["violations"])
+        stats["events"] += cres["stats"]["cases"]
     # timed scenarios (ChannelTime.tla): keep-alive, rekey-by-time, replay across rotation
     if timed_fut is not None:
         tres = timed_fut.result()
@@ -237,12 +244,60 @@ def run_timed(binp, d, cfgs=("ChannelTime.cfg", "ChannelTime_stranger.cfg")):
                 violations=violations)
 
 
+def run_crafted(binp, d, tier):
+    """ChannelCrafted.tla: TLC enumerates what a hand-crafted party under an unaccepted key sends after a valid
+    RespHello; each sequence runs against a real channel (fresh, and bound to B)."""
+    res = core.tlc("ChannelCrafted", "ChannelCrafted.cfg", workers=1, timeout=600, label="mc-crafted", short=True)
+    core.tlc_ok_or_inconclusive(res, "MC ChannelCrafted")
+    cases = [x[1] for x in res.printed("CASE")]
+    if not cases:
+        raise core.Inconclusive("ChannelCrafted produced no cases")
+    if tier == "quick":
+        # every sequence that contains a counter the replay filter refuses or a handshake-range counter, a third of the rest
+        cases = [c for i, c in enumerate(cases) if (i + core.seed()) % 3 == 0 or any(x in ("Dmax", "Dmax1", "D3", "D15") for x in c["seq"])]
+    p = os.path.join(d, "crafted_cases.ndjson")
+    with open(p, "w") as f:
+        for i, c in enumerate(cases):
+            c["id"] = 200000 + i
+            f.write(json.dumps(c) + "\n")
+    tr = os.path.join(d, "crafted_trace.ndjson")
+    core.run([binp, "-crafted", "-in", p, "-out", tr], timeout=900)
+    tv = core.validate_trace("ChannelCraftedTrace", "ChannelCraftedTrace.cfg", tr, nshards=1)
+    lines = open(tr).readlines()
+    violations = []
+    for v in tv["viol"]:
+        _t, lineno, beh, ops = v
+        ev = json.loads(lines[lineno - 1])
+        for op in ops:
+            what = "%s false on a real channel (%s) facing a hand-crafted responder under an unaccepted key that sent %s after its RespHello: handed up %d crafted plaintexts, RemoteKey wrong %s, sealed %d records for it%s" % (
+                op, ev["sit"], ev["seq"], ev["handed"], ev["rk_wrong"], ev["sent_to_m"], (", panic: " + ev.get("panicv", "")) if ev.get("panic") else "")
+            pid = classify(op) or "C05"
+            violations.append((pid, "%s:%s:crafted/%s" % (pid, op, ev["sit"]), what, dict(crafted_case=ev, operator=op)))
+            if op == "OnlyAcceptedData":
+                violations.append(("C02", "C02:Authentic:unaccepted-key/crafted-%s" % ev["sit"], what, dict(crafted_case=ev, operator=op)))
+    evs = [json.loads(l) for l in lines]
+    return dict(stats=dict(cases=len(cases), engaged=sum(1 for e in evs if e["engaged"]), not_engaged=len(tv["drift"])), violations=violations)
+
+
 def check(pid, tier, replay=None):
     t0 = time.time()
     rb = None
     if replay:
         with open(replay) as f:
-            rp = json.load(f)["payload"]["behaviour"]
+            payload = json.load(f)["payload"]
+        if "behaviour" not in payload:
+            # a timed or crafted case: those families are small and fully regenerated by TLC, the whole family is re-run
+            stats, violations = run_pipeline(tier, None, pid)
+            want = payload.get("operator")
+            violations = [v for v in violations if v[3].get("operator") == want and ("timed_case" in v[3] or "crafted_case" in v[3])]
+            mine, seen = [], set()
+            for (p, key, what, pl) in violations:
+                if p == pid and key not in seen:
+                    seen.add(key)
+                    mine.append(core.Violation(pid, key, what, core.write_replay(pid, key, pl)))
+            report(pid, tier, stats, mine, t0)
+            return core.verdict(pid, mine)
+        rp = payload["behaviour"]
         rb = {rp["family"]: [rp]}
     stats, violations = run_pipeline(tier, rb, pid)
     mine, seen = [], set()
@@ -267,7 +322,7 @@ def report(pid, tier, stats, mine, t0):
         evaluations=stats["events"], distinct_nontrivial=stats["trace_states"],
         rule="evaluations = environment actions executed on the real channels (each followed by waiting for the real timers), validated by TLC; distinct_nontrivial = distinct states of the trace specification",
         model_checking=stats["mc"], behaviours=stats["behaviours"], drift_steps=stats["drift"], settle=stats["settle"],
-        timed=stats.get("timed", {}), scripts=stats.get("scripts", {}), exhaustive=False)
+        timed=stats.get("timed", {}), crafted=stats.get("crafted", {}), scripts=stats.get("scripts", {}), exhaustive=False)
     core.write_evidence(pid, tier, "model_checking", coverage,
                         ["sessions inside the channel are abstracted (their exact machine is Session.tla)",
                          "real-time threshold of the settle phase: 1.5 s, re-measured, harness stall detector",
